@@ -774,3 +774,41 @@ PROPS["C01"]["level_text"] = ("Proof of refinement to an order-free declarative 
     "What the specification still shares with the model: the mempool eligibility flags inside the summary fold (closed forms proved) and the cost table in list form (C04 proves it equal to the consensus table). The model as a whole is compared with the real parse_spends on every generated tree: verdict and the full summary (incl. an exhaustive single-condition sweep over every opcode x argument shape x flags).")
 PROPS["C01"]["level_note"] = ("Trusted: Lean kernel + standard axioms; hand model = code only on the cases run (the argument grammar is now ALSO pinned by an independent table proved equal to the model, so a model error in parse_args would have to coincide with the same error in the table written from Appendix A / the source); blst key validity enters as a per-case oracle (list of valid keys computed by the harness with chia_bls); signature offered is the identity, so BLS verification reduces to `no pairs collected` (C05 covers the signature rule). Trees are values: OwnedSpendConditions::from compares the hint node with a.nil() by pointer, so an empty first memo that is a zero-length substr of a heap atom would be reported as Some(\"\") instead of None (DESIGN 12.3, not reachable from deserialised trees).")
 PROPS["C01"]["technique"] = "Lean 4 refinement theorem (executable parse_spends model <-> order-free declarative acceptance predicate and summary function, for all trees/flags/visitors/limits) with a table-driven argument grammar proved equal to the model's parse_args + translator for opcode/cost tables + differential correspondence on the full summary"
+
+# ---- C10: truthfulness of the declared costs derived from per-bundle mempool runs (merged from the prover) ----
+# override for bin/props.py: PROPS['C10'] after the list-of-bundles consensus-cost theorems
+# usage: exec(open('/tmp/w_p10/props_c10_override.py').read()) after PROPS is defined, or paste the three assignments
+PROPS["C10"]["theorems"] = [
+  "ChiaModel.C10.builder_consts",
+  "ChiaModel.C10.wrapper_weight",
+  "ChiaModel.C10.interned_all_or_nothing",
+  "ChiaModel.C10.interned_rejected_no_effect",
+  "ChiaModel.C10.interned_contents",
+  "ChiaModel.C10.interned_signature",
+  "ChiaModel.C10.triangle",
+  "ChiaModel.C10.interned_estimate_upper",
+  "ChiaModel.C10.interned_within_limit",
+  "ChiaModel.C10.interned_exact_limit",
+  "ChiaModel.C10.compressed_all_or_nothing_full_false",
+  "ChiaModel.C10.compressed_all_or_nothing_partial",
+  "ChiaModel.C10.compressed_contents",
+  "ChiaModel.C10.compressed_signature",
+  "ChiaModel.C10.compressed_within_limit",
+  "ChiaModel.C10.compressed_estimate_upper_full_false",
+  "ChiaModel.C10.compressed_estimate_upper_partial",
+  "ChiaModel.C10.compressed_exact_limit",
+  "ChiaModel.C10.interned_consensus_cost",
+  "ChiaModel.C10.compressed_consensus_cost",
+  "ChiaModel.C10.bundles_truthful_total",
+  "ChiaModel.C10.bundles_truthful_total_reversed",
+  "ChiaModel.C10.interned_consensus_cost_of_bundles_reindexed",
+  "ChiaModel.C10.interned_consensus_cost_of_bundles",
+  "ChiaModel.C10.compressed_consensus_cost_of_bundles"
+]
+
+PROPS["C10"]["open"] = [
+  "compressed builder, 'a rejected attempt leaves the later output unchanged' at the level of BYTES and cost: depends on clvmr's TreeCache, which Serializer::restore does not fully undo (recorded finding); in the model the serializer sizes are oracle values, so only the decoded contents / signature / accounting are theorems (compressed_*_partial with kernel-checked counterexamples for the full sentences)",
+  "consensus cost from per-bundle mempool acceptance (bundles_truthful_total, interned_/compressed_consensus_cost_of_bundles): the hypothesis 'declared costs truthful in total' is now DERIVED from run_spendbundle accepting every bundle and each batch declaring the sum of (execution + condition cost) of its bundles; what remains hypothesis: (a) ACCEPTANCE of the combined block by run_block_generator2 (it depends on cross-bundle conditions and double spends, so it cannot follow from per-bundle acceptance); (b) the puzzle runs of the block are those of the bundles, re-indexed (a function of the listed item, or positionally q(N-1-i) for the interned builder's reversed order) - the CLVM interpreter is an oracle in the model; (c) the mempool run and the block run use the same flag word p.flags (as in C08): that the extra strictness flags of MEMPOOL_MODE never change the cost of an accepted spend is not proved; (d) for the compressed builder the positional (re-indexed) form is stated only through the item-keyed oracle (its order is batch-wise reversed)"
+]
+
+PROPS["C10"]["level_text"] = "Proof, with the recorded findings of the compressed builder as exact exclusions. Interned builder, fully modelled: all-or-nothing (unconditional, wrapping arithmetic included), a rejected attempt changes nothing later (verdicts, cost(), finalize), contents and signature of finalize for every history, finite-set sub-additivity of interned_vbytes and from it: exact cost <= cost() <= limit in every reachable state, finalize's assert cannot fire, accepted iff true total <= limit (exactly on the limit is accepted); interned_consensus_cost: the cost finalize computes equals the cost run_block_generator2 (model, INTERNED_GENERATOR) charges for the emitted generator when the declared costs are truthful in total (via C04 native_cost_decomposition: byte cost + execution + condition cost); interned_consensus_cost_of_bundles(_reindexed) / compressed_consensus_cost_of_bundles derive that truthfulness, for every history of adds on a fresh builder, from per-bundle mempool acceptance: both cost fields of an accepted run_spendbundle / run_block_generator2 are sums over the spends of a quantity read off the spend's own puzzle run (Lemmas/CostAdditive: nativeLoop_costs, bundleLoop_costs), so execution cost = 20 + sum of the bundles' execution costs and condition cost = sum of the bundles' condition costs for ANY order of the spends (bundles_truthful_total; positional re-indexing for the interned builder's reversed order: bundles_truthful_total_reversed), block_cost = 20 + accepted declared costs without wrap, hence finalize returns and its cost equals the consensus cost of the emitted block (acceptance of the combined block stays a hypothesis). Compressed builder with the incremental serializer as oracle under SerContract (restore undoes the size, size monotone, closing costs <= 2 bytes): contents, signature, no panic and cost <= limit, exact limit, compressed_consensus_cost (returned cost = consensus cost of a generator of the emitted length); the two sentences that fail on the unchanged code (estimate below final cost on a builder whose serializer no attempt has reached; first rejected-after-serialization attempt changes cost()) are stated in full, refuted by kernel-checked witnesses replayed on the real code, and proved with the exact exclusion. Hypotheses where sums occur: limit < 2^62 and >= cost of the empty generator, declared <= 2^63. Correspondence: builder histories through both real builders, every returned generator decoded and re-run through run_block_generator2 (consensus cost compared per case)."
